@@ -5,6 +5,8 @@ import numpy as np
 
 from vmon import conds, gen, instr
 
+from vmon.scale import S
+
 ID = 'C16'
 RULE = ('cases = (a) planted masks: K 2..4 non-negative activity patterns with pairwise cosine <= 0.1 copied to every bin with <= 10 % '
         'multiplicative jitter and permuted by a per-frequency field (arbitrary for the greedy aligner; >= 70 % majority in the first '
@@ -28,7 +30,7 @@ def plan(tier, seed):
     for n in range(0, top + 1, 2):
         cases.append(dict(lane='plan', stft_size=n, rs=[seed, 16, n]))
     i = 1000
-    n = 70 if tier == 'quick' else 600
+    n = S(tier, 70, 600)
     for r in range(n):
         big = tier == 'thorough' and r % 10 == 0
         cases.append(dict(lane='planted', aligner='greedy', metric=pick(['cos', 'euclidean']), K=int(rng.integers(2, 5)),
@@ -38,7 +40,7 @@ def plan(tier, seed):
         F = {'default512': 257, 'default1024': 513}.get(which, int(pick([9, 17, 33, 65, 129])))
         cases.append(dict(lane='planted', aligner='dhtv', plan=which, metric=pick(['cos', 'cos', 'euclidean']), K=int(rng.integers(2, 5)), F=F, T=int(rng.integers(8, 40)),
                           rs=[seed, 18, i])); i += 1
-    m = 90 if tier == 'quick' else 900
+    m = S(tier, 90, 900)
     for r in range(m):
         cases.append(dict(lane='transcription', aligner=pick(['dhtv', 'greedy']), metric=pick(['cos', 'euclidean', 'multiply']), alg=pick(['greedy', 'optimal']),
                           K=int(rng.integers(1, 6)), F=int(pick([1, 3, 5, 9, 17, 33, 61])), T=int(pick([1, 2, 5, 12, 30])), rs=[seed, 19, i])); i += 1
